@@ -338,6 +338,19 @@ func (r *FnResult) Discharge(opt SolveOptions) {
 		}
 	}
 	var wg sync.WaitGroup
+	// The expensive stages (cut, longer timeout) are spent on the first few obligations that need them:
+	// a function with many undischarged obligations is reported as failing either way.
+	var deepMu sync.Mutex
+	deepLeft := 6
+	takeDeep := func() bool {
+		deepMu.Lock()
+		defer deepMu.Unlock()
+		if deepLeft > 0 {
+			deepLeft--
+			return true
+		}
+		return false
+	}
 	for _, i := range idx {
 		wg.Add(1)
 		go func(i int) {
@@ -345,6 +358,12 @@ func (r *FnResult) Discharge(opt SolveOptions) {
 			o := r.Obls[i]
 			name := base + "__" + sanitize(o.Kind) + fmt.Sprintf("_%d", i)
 			v, runs := Race(r.Script.Text([]int{i}, true), opt.Dir, name, opt.Timeout, opt.NeedTwo)
+			if v != "unsat" && v != "sat" && !takeDeep() {
+				o.Solver, o.Secs = winner(runs)
+				o.Detail = "not discharged within the first timeout; the longer stages were spent on other obligations of this function"
+				o.Result = "unknown"
+				return
+			}
 			if v != "unsat" && v != "sat" {
 				// cut stage: G is valid if not-e and not-G is unsatisfiable for every e in a set E of
 				// formulas (so not-G implies all of E) and E together with not-G is unsatisfiable.
